@@ -19,14 +19,13 @@ namespace Amshan.C11
 open Amshan.Gen Amshan.Cosem Amshan.P1Parse Amshan.Flt
 
 /-- **`float(text)` of a plain decimal text** (model of CPython's `float(str)`, Model/Float.lean): optional sign,
-    digits `ip`, '.', digits `fp` (not both empty; leading zeros allowed; at most 800 fraction digits — the model
-    clamps longer fractions to zero) parses to the double nearest to (`ip fp` read as one integer) / 10^|fp|. -/
+    digits `ip`, '.', digits `fp` (not both empty; leading zeros allowed; any number of digits) parses to the double nearest to (`ip fp` read as one integer) / 10^|fp|. -/
 theorem ofStr_decimal (sign : Option Bool) (ip fp : List Nat)
     (hip : ∀ c ∈ ip, Py.isDigit c = true) (hfp : ∀ c ∈ fp, Py.isDigit c = true)
-    (hne : ip ≠ [] ∨ fp ≠ []) (hk : fp.length ≤ 800) :
+    (hne : ip ≠ [] ∨ fp ≠ []) :
     Flt.ofStr (signChars sign ++ (ip ++ 46 :: fp)) =
       .ok (ofRat (sign == some true) (digitsVal (ip ++ fp)) (10 ^ fp.length)) :=
-  Flt.ofStr_decimal sign ip fp hip hfp hne hk
+  Flt.ofStr_decimal sign ip fp hip hfp hne
 
 /-- the same without a decimal point: `float(sign ip)` is the double nearest to the integer `ip` -/
 theorem ofStr_decimal_nodot (sign : Option Bool) (ip : List Nat)
@@ -73,7 +72,7 @@ theorem decode_kilo_decimal (addr unit text ip fp : List Nat) (g : Obis.Groups)
               | some n => n | none => Py.toString (Obis.cdeStr g)), .int z) ∧
       (z = ((digitsVal (ip ++ fp) * 1000 / 10 ^ fp.length : Nat) : Int) ∨
        z = ((digitsVal (ip ++ fp) * 1000 / 10 ^ fp.length : Nat) : Int) - 1) := by
-  have hf := ofStr_decimal_text text ip fp hip hfp ht hne (by omega)
+  have hf := ofStr_decimal_text text ip fp hip hfp ht hne
   have hne' := unit_ne_nil unit (Or.inl hu)
   rcases kilo_unit_bound_any (digitsVal (ip ++ fp)) fp.length hk hE with hz | hz
   · exact ⟨_, P1ParseRT.decodeItem_kilo addr text unit g _ _ hg hu hne' hf hz, Or.inl rfl⟩
@@ -139,13 +138,12 @@ theorem decode_plain_decimal (addr unit text ip fp : List Nat) (g : Obis.Groups)
     (hu : unitsPlain.contains (Py.lower unit) = true)
     (hip : ∀ c ∈ ip, Py.isDigit c = true) (hfp : ∀ c ∈ fp, Py.isDigit c = true)
     (hne : ip ≠ [] ∨ fp ≠ [])
-    (ht : text = ip ++ 46 :: fp ∨ (text = ip ∧ fp = []))
-    (hk : fp.length ≤ 800) :
+    (ht : text = ip ++ 46 :: fp ∨ (text = ip ∧ fp = [])) :
     decodeItem ⟨addr, [⟨text, some unit⟩]⟩ =
       .ok ((match obisNameMap.lookup (Py.toString (Obis.cdeStr g)) with
             | some n => n | none => Py.toString (Obis.cdeStr g)),
            .flt (ofRat false (digitsVal (ip ++ fp)) (10 ^ fp.length))) := by
-  have hf := ofStr_decimal_text text ip fp hip hfp ht hne hk
+  have hf := ofStr_decimal_text text ip fp hip hfp ht hne
   exact P1ParseRT.decodeItem_plain addr text unit g _ hg hu (unit_ne_nil unit (Or.inr hu)) hf
 
 /-- … and numerically: for a non-zero value below 2^200 with at most 60 fraction digits the decoded float is
@@ -173,7 +171,7 @@ theorem decode_plain_decimal_error (addr unit text ip fp : List Nat) (g : Obis.G
     (Nat.le_trans hmb (Nat.le_mul_of_pos_left _ (Nat.pow_pos (by decide))))
   refine ⟨mf, ef, ?_, hmf, herr⟩
   rw [← heq]
-  exact decode_plain_decimal addr unit text ip fp g hg hu hip hfp hne ht (by omega)
+  exact decode_plain_decimal addr unit text ip fp g hg hu hip hfp hne ht
 
 /-! ### witnesses: both cases of the disjunction occur, and the theorems apply to realistic texts -/
 
@@ -212,7 +210,7 @@ example : decodeItem ⟨Py.ofString "1-0:32.7.0", [⟨Py.ofString "230.1", some 
     .ok ("voltage_l1", .flt (ofRat false 2301 (10 ^ 1))) :=
   decode_plain_decimal (Py.ofString "1-0:32.7.0") (Py.ofString "V") (Py.ofString "230.1") (Py.ofString "230")
     (Py.ofString "1") (some 1, some 0, 32, 7, some 0, none) (by rfl) (by decide) (by decide) (by decide)
-    (by decide) (by decide) (by decide)
+    (by decide) (by decide)
 
 /-- which is 0x1.cc33333333333p+7 = 8095924017640243 · 2^-45, as CPython's `float('230.1').hex()` says -/
 example : ofRat false 2301 (10 ^ 1) = .fin false 8095924017640243 (-45) ∧
@@ -222,8 +220,8 @@ example : ofRat false 2301 (10 ^ 1) = .fin false 8095924017640243 (-45) ∧
 example : Flt.ofStr (Py.ofString "-0.5") = .ok (ofRat true 5 (10 ^ 1)) ∧
     Flt.ofStr (Py.ofString ".25") = .ok (ofRat false 25 (10 ^ 2)) ∧
     Flt.ofStr (Py.ofString "+0042") = .ok (ofRat false 42 1) :=
-  ⟨ofStr_decimal (some true) (Py.ofString "0") (Py.ofString "5") (by decide) (by decide) (by decide) (by decide),
-   ofStr_decimal none [] (Py.ofString "25") (by decide) (by decide) (by decide) (by decide),
+  ⟨ofStr_decimal (some true) (Py.ofString "0") (Py.ofString "5") (by decide) (by decide) (by decide),
+   ofStr_decimal none [] (Py.ofString "25") (by decide) (by decide) (by decide),
    ofStr_decimal_nodot (some false) (Py.ofString "0042") (by decide) (by decide)⟩
 
 end Amshan.C11
